@@ -1833,6 +1833,26 @@ def expected_metric(prog, node, xvec):
     return None
 
 
+def first_wrong_domain(I, prog, ops):
+    """kind of the first node whose nifty operator has not the keys its parts have"""
+    free = []
+    for i, nd in enumerate(prog["nodes"]):
+        if nd[0] == "var":
+            fr = {nd[1]}
+        elif nd[0] == "vars":
+            fr = set(nd[1])
+        elif nd[0] == "subst":
+            fr = (free[nd[1]] - {nd[2]}) | free[nd[3]]
+        else:
+            fr = set().union(*[free[j] for j in Gen.children(nd)])
+        free.append(fr)
+        op = ops[i]
+        if nd[0] != "vars" and isinstance(op.domain, I.MultiDomain) \
+                and set(op.domain.keys()) != fr:
+            return ":".join(str(a) for a in nd[:2] if isinstance(a, str))
+    return prog["nodes"][-1][0]
+
+
 def is_energy_root(prog):
     return prog["nodes"][-1][0] in ("lh", "lhscale", "lhsum", "ham")
 
